@@ -2,11 +2,22 @@
 
 package entry
 
+import "sync"
+
 // VerifYield is set by the simulation harness; nil means no-op.
 var VerifYield func(site string)
 
 func verifYield(site string) {
 	if f := VerifYield; f != nil {
 		f(site)
+	}
+}
+
+// VerifBeforeLock is set by the simulation harness; nil means no-op.
+var VerifBeforeLock func(mu *sync.RWMutex, write bool, site string)
+
+func verifBeforeLock(mu *sync.RWMutex, write bool, site string) {
+	if f := VerifBeforeLock; f != nil {
+		f(mu, write, site)
 	}
 }
